@@ -93,6 +93,16 @@ def step_lines(case, bins, forces, frac=0.5):
     return L
 
 
+def save_cmd(fmt, name):
+    """fmt: text | binary (state file read through the input prefix), str (formatted state handed over as a string),
+    buf (unformatted state handed over in a memory buffer, as engines with their own checkpoints do)"""
+    return "save %s %s" % ({"str": "text", "buf": "binary"}.get(fmt, fmt), name)
+
+
+def load_cmd(fmt, name):
+    return "%s %s" % ({"str": "loadstr", "buf": "loadbuf"}.get(fmt, "load"), name)
+
+
 def run_abf(exe, case, scratch, timeout=30.0):
     """Events (see gen_abf): ["s", w, bins, forces] one engine step of walker w; ["r", w, fmt] restart of
     walker w through a state file.  Returns a list, one entry per event, of (w, err, dump) for "s" and
@@ -163,7 +173,7 @@ def run_abf(exe, case, scratch, timeout=30.0):
                 out[k] = (w, [x for x in r if x.startswith("POSTRUN")], parse_shared(r))
             elif ev[0] == "r":
                 fmt = ev[2]
-                r = T.walkers[w].do(["save %s st%d" % (fmt, k)] + abf_setup(case) + ["load st%d" % k, "dumpshared a"], timeout)
+                r = T.walkers[w].do([save_cmd(fmt, "st%d" % k)] + abf_setup(case) + [load_cmd(fmt, "st%d" % k), "dumpshared a"], timeout)
                 out[k] = (w, [x for x in r if x.startswith(("SAVE", "LOAD", "CONFIG"))], parse_shared(r))
                 first[w] = True
                 last[w] = t[w] if t[w] is not None else S0
@@ -609,7 +619,7 @@ def run_czar(exe, case, scratch, timeout=30.0):
             if fmts:
                 # the job ends here and is started again: every walker goes through its state file (walker w in format fmts[w])
                 bs = [parse_shared(r) for r in T.all_do(["dumpshared a"], timeout)]
-                rs = T.all_do(lambda i: ["save %s zst%d" % (fmts[i], t)] + setup + ["load zst%d" % t, "dumpshared a"], timeout)
+                rs = T.all_do(lambda i: [save_cmd(fmts[i], "zst%d" % t)] + setup + [load_cmd(fmts[i], "zst%d" % t), "dumpshared a"], timeout)
                 for w, (b, r) in enumerate(zip(bs, rs)):
                     restarts.append((t, w, fmts[w], b, parse_shared(r), [x for x in r if x.startswith(("SAVE", "LOAD", "CONFIG"))]))
         stats = T.all_do(["repstat"], timeout)
